@@ -64,6 +64,12 @@ CLAIMED = {
          'use quotient/remainder by the same block length, the block byte size for the file offset, and set counter -> decode -> in-block position in that order. '
          'Sample-sequence equality under arbitrary read partitions is not decided.',
          'partial evaluation decision table vs documented oracle; must-precede path rules; sibling template facts'),
+ 'C05': ('DESIGN.md §4 C05',
+         'The 18 public read/write wrappers agree on guards, clamp, zero fill, position and frame-count updates and contain every required fact of the documented contract; all 121 '
+         'BUF_UNION staging loops are bounded by the buffer capacity and by the remaining request, count what was transferred on every path, leave on a short transfer and convert only what '
+         'was read; in every block codec worker each access to the caller buffer is proven (interval / symbolic upper bounds, element size as unit, remaining-request idiom) to lie inside the '
+         'requested items. One known finding (VOX odd-count overflow) is listed. Content of delivered items is not decided.',
+         'sibling fact sheets + loop template obligations + guarded-access bound analysis over clang CFG'),
 }
 REASONS = {}
 DEFAULT_REASON = 'check not built yet (work in progress); see DESIGN.md'
